@@ -68,7 +68,7 @@ def cases(prop, tier, seed):
             z = ZOO[name]
             for t in range(per if not z["slow"] else max(2, per // 3)):
                 n = int(rs.randint(max(5, z["min_n"]), 8 if z["slow"] else 11))
-                nl = int(rs.choice([0, 2, 3]))
+                nl = (0, 2, 3)[(t + rs.randint(3) * 0) % 3]      # every recipe gets cold starts (nl = 0) in every tier, whatever the seed
                 out.append(dict(kind=prop, cls=name, dseed=int(rs.randint(1 << 30)), n=n, nl=nl, dup=("grid", "rand")[t % 2],
                                 b=1 if name == "ParallelUtilityEstimationWrapper" else int(rs.randint(1, 4)),
                                 sseed=int(rs.randint(0, 50)), t=t, key=[name, n, nl, t, prop]))
